@@ -70,6 +70,13 @@ var trTargets = [][2]string{
 	{"Nick", "Commands"}, {"JoinKey", "Commands"}, {"PartMessage", "Commands"}, {"Message", "Commands"},
 	{"Notice", "Commands"}, {"Action", "Commands"}, {"Topic", "Commands"}, {"Oper", "Commands"}, {"Unban", "Commands"},
 	{"SendRaw", "Commands"},
+	// phase 4: the splitter's event side, the remaining value-level helpers, the STS clock predicates
+	{"Copy", "Source"}, {"Copy", "Event"}, {"split", "Event"},
+	{"sliceInsert", ""},
+	{"Count", "Tags"}, {"Keys", "Tags"}, {"Equals", "Tags"}, {"Remove", "Tags"},
+	{"Equals", "Event"}, {"String", "Event"},
+	{"EncodeCTCP", ""}, {"parseCMD", "CTCP"},
+	{"expired", "strictTransport"}, {"enabled", "strictTransport"}, {"reset", "strictTransport"},
 }
 
 // suffix targets: the TAIL of a function that is otherwise outside the subset (a handler whose first part reads client
@@ -79,7 +86,7 @@ var trTargets = [][2]string{
 // entry makes the generated Lean ill-typed) become parameters, after the function's own parameters that the tail uses.
 type suffixTarget struct {
 	fn, recv, lean, from string
-	captured         [][2]string
+	captured             [][2]string
 }
 
 var trSuffixTargets = []suffixTarget{
@@ -98,15 +105,16 @@ var structTable = map[string][]string{
 	"Perms":     {"Owner", "Admin", "Op", "HalfOp", "Voice"},
 	// User: the Lean structure has further fields (perms, name, account, away) the translator does not know: a struct
 	// with unlisted Lean fields can be read and updated through a pointer but never built by translated code (structOpaque).
-	"User":         {"Nick", "Ident", "Host", "ChannelList"},
-	"Channel":      {"Name", "Topic", "UserList", "Modes"},
-	"SASLPlain":    {"User", "Pass"},
-	"SASLExternal": {"Identity"},
-	"ircConn":      {"lastWrite", "lastDue", "writeDelay"},
+	"User":            {"Nick", "Ident", "Host", "ChannelList"},
+	"Channel":         {"Name", "Topic", "UserList", "Modes"},
+	"SASLPlain":       {"User", "Pass"},
+	"SASLExternal":    {"Identity"},
+	"ircConn":         {"lastWrite", "lastDue", "writeDelay"},
+	"strictTransport": {"beginUpgrade", "upgradePort", "persistenceDuration", "persistenceReceived", "preload", "lastFailed"},
 }
 
 // leanStructName: Go struct -> Lean structure where the names differ.
-var leanStructName = map[string]string{"ircConn": "IrcConn"}
+var leanStructName = map[string]string{"ircConn": "IrcConn", "strictTransport": "StrictTransport"}
 
 func leanStruct(n string) string {
 	if l, ok := leanStructName[n]; ok {
@@ -142,7 +150,7 @@ var timeMethodTable = map[string]struct {
 // handleTypes: parameter types that are handles on the client object.  Such a parameter is DROPPED from the generated
 // signature; the body may use it only as the root of a sink call (sinkTable) or of an environment read (envReadTable),
 // or to call another translated method of the same handle type.
-var handleTypes = map[string]bool{"Commands": true, "Client": true}
+var handleTypes = map[string]bool{"Commands": true, "Client": true, "CTCP": true}
 
 // sinkTable: "effect calls".  A call statement `<text>(arg)` appends `<constructor> arg` to the output list `outs_`,
 // which becomes the LAST result of the generated function (and of every translated function that calls it).
@@ -170,7 +178,7 @@ var structOpaque = map[string]bool{"User": true}
 var fieldRename = map[string]string{
 	"CModes.modesListArgs": "listArgs", "CModes.modesArgs": "argsM", "CModes.modesSetArgs": "setArgs",
 	"CModes.modesNoArgs": "noArgs",
-	"Perms.HalfOp": "halfop", "User.ChannelList": "chans", "Channel.UserList": "users",
+	"Perms.HalfOp":       "halfop", "User.ChannelList": "chans", "Channel.UserList": "users",
 }
 
 func leanField(st, goField string) string {
@@ -191,23 +199,44 @@ type libFn struct {
 }
 
 var stdlibTable = map[string]libFn{
-	"strings.IndexByte":  {"indexByteI $1 $2", []kind{kStr, kByte}, kInt, false},
-	"bytes.IndexByte":    {"indexByteI $1 $2", []kind{kStr, kByte}, kInt, false},
-	"strings.Index":      {"indexI $1 $2", []kind{kStr, kStr}, kInt, false},
-	"strings.Contains":   {"containsSub $1 $2", []kind{kStr, kStr}, kBool, false},
-	"strings.HasPrefix":  {"hasPrefix $1 $2", []kind{kStr, kStr}, kBool, false},
-	"strings.HasSuffix":  {"hasSuffix $1 $2", []kind{kStr, kStr}, kBool, false},
-	"strings.Split":      {"split $1 $2", []kind{kStr, kStr}, kStrs, true},
-	"strings.SplitN":     {"splitN $1 $2 $3", []kind{kStr, kStr, kInt}, kStrs, true},
+	"strings.IndexByte":                 {"indexByteI $1 $2", []kind{kStr, kByte}, kInt, false},
+	"bytes.IndexByte":                   {"indexByteI $1 $2", []kind{kStr, kByte}, kInt, false},
+	"strings.Index":                     {"indexI $1 $2", []kind{kStr, kStr}, kInt, false},
+	"strings.Contains":                  {"containsSub $1 $2", []kind{kStr, kStr}, kBool, false},
+	"strings.HasPrefix":                 {"hasPrefix $1 $2", []kind{kStr, kStr}, kBool, false},
+	"strings.HasSuffix":                 {"hasSuffix $1 $2", []kind{kStr, kStr}, kBool, false},
+	"strings.Split":                     {"split $1 $2", []kind{kStr, kStr}, kStrs, true},
+	"strings.SplitN":                    {"splitN $1 $2 $3", []kind{kStr, kStr, kInt}, kStrs, true},
 	"base64.StdEncoding.EncodeToString": {"b64Encode $1", []kind{kStr}, kStr, false},
-	"strings.ToUpper":    {"toUpperAscii $1", []kind{kStr}, kStr, false},
-	"strings.ToLower":    {"toLowerAscii $1", []kind{kStr}, kStr, false},
-	"strings.ReplaceAll": {"replaceAll $1 $2 $3", []kind{kStr, kStr, kStr}, kStr, true},
-	"bytes.ToValidUTF8":  {"toValidUTF8 $2 $1", []kind{kStr, kStr}, kStr, false},
+	"strings.ToUpper":                   {"toUpperAscii $1", []kind{kStr}, kStr, false},
+	"strings.ToLower":                   {"toLowerAscii $1", []kind{kStr}, kStr, false},
+	"strings.ReplaceAll":                {"replaceAll $1 $2 $3", []kind{kStr, kStr, kStr}, kStr, true},
+	"bytes.ToValidUTF8":                 {"toValidUTF8 $2 $1", []kind{kStr, kStr}, kStr, false},
 	// function-valued argument: keyed by "callee/argument name"
 	"strings.TrimFunc/cutCRFunc": {"trimCRLF $1", []kind{kStr}, kStr, false},
 	// package-local one-line wrapper around strings.FieldsFunc (its predicate is pinned in Gen/Facts.lean)
 	"splitParams": {"fieldsSp $1", []kind{kStr}, kStrs, false},
+}
+
+// modelCalleeTable ("package-local callee table"): functions of the package that are NOT translated; a call is mapped to
+// a designated hand-written MODEL function (TRUSTED: the harness' correspondence stream named in `covered` compares the
+// Go function with that model).  `params` become extra leading parameters of every generated function that calls it
+// directly (such a function cannot be called from another translated function: fail-closed); `imp` is imported by
+// Funcs.lean.  The entry is used only while the Go function has exactly the parameter / result types listed here and is
+// not itself a translation target.
+type modelCallee struct {
+	tmpl    string
+	args    []kind
+	ret     kind
+	eff     bool
+	params  [][2]string
+	imp     string
+	covered string
+}
+
+var modelCalleeTable = map[string]modelCallee{
+	"splitMessage": {"splitMessageGo isURL $1 $2", []kind{kStr, kInt}, kStrs, true,
+		[][2]string{{"isURL", "Bytes → Bool"}}, "Girc.Model.Split", "C11 stream: Go splitMessage vs the model op `splitmsg`"},
 }
 
 // regexDeleteTable: `X.ReplaceAllString(s, "")` for a package-level `var X = regexp.MustCompile(<pattern>)`: the
@@ -237,12 +266,13 @@ const (
 	kInt
 	kByte
 	kBool
-	kStr  // string or []byte
-	kStrs // []string
+	kStr     // string or []byte
+	kStrs    // []string
 	kStructs // []S for a struct S of structTable
+	kPtrs    // []*S for a struct S of structTable (phase 4: `[]*Event`)
 	kOuts    // the output list of sink calls (`outs_ : List Out`)
 	kMapMap  // map[string]map[string]string, nil-able; the inner maps are values (no two entries alias, §2.5)
-	kPtr  // *Struct
+	kPtr     // *Struct
 	kStruct
 	kBuf  // *bytes.Buffer (threaded as Bytes)
 	kMap  // Tags (map[string]string), nil-able
@@ -275,6 +305,8 @@ func (t gty) lean() string {
 		return leanStruct(t.name)
 	case kStructs:
 		return "List " + leanStruct(t.name)
+	case kPtrs:
+		return "List (Option " + leanStruct(t.name) + ")"
 	case kOuts:
 		return "List Out"
 	case kMapMap:
@@ -341,14 +373,15 @@ func lowerFirst(s string) string {
 // ---------------------------------------------------------------------------------------------
 
 type trGen struct {
-	p      *pkgFiles
-	repo   string
-	consts map[string]string // Lean const name -> definition line
-	sigs   map[string]*trSig // Lean function name -> signature (targets only)
-	defs   map[string]string // Lean function name -> emitted text
-	deps   map[string][]string
-	status map[string]string // Lean function name -> "" (ok) or reason
-	busy   map[string]bool
+	p       *pkgFiles
+	repo    string
+	consts  map[string]string // Lean const name -> definition line
+	sigs    map[string]*trSig // Lean function name -> signature (targets only)
+	defs    map[string]string // Lean function name -> emitted text
+	deps    map[string][]string
+	status  map[string]string // Lean function name -> "" (ok) or reason
+	busy    map[string]bool
+	imports map[string]bool // extra Lean modules Funcs.lean imports (model callees)
 }
 
 type trSig struct {
@@ -363,6 +396,8 @@ type trSig struct {
 	// phase 3
 	handles  map[string]string // dropped handle parameters: Go name -> type name (handleTypes)
 	envs     []string          // environment reads (keys of envReadTable) in the body: one leading parameter each
+	caps     []string          // slice parameters whose capacity the body reads (`cap(p)`): one leading parameter `<p>_spare_` each (§2.16)
+	models   []string          // model callees (keys of modelCalleeTable) the body calls: their extra leading parameters
 	ptrout   []string          // pointer parameters the body writes THROUGH (`p.f = e`): the final pointer is an extra result
 	sinks    bool              // the body (or a callee) calls a sink: `outs_ : List Out` is the last result
 	variadic bool              // the last parameter is `xs ...T`
@@ -370,6 +405,15 @@ type trSig struct {
 	suffix   *suffixTarget
 	ok       bool
 	why      string
+}
+
+func (s *trSig) isCap(n string) bool {
+	for _, p := range s.caps {
+		if p == n {
+			return true
+		}
+	}
+	return false
 }
 
 func (s *trSig) isPtrout(n string) bool {
@@ -437,6 +481,19 @@ func (s *trSig) leadParams() []string {
 	for _, o := range s.orders {
 		out = append(out, fmt.Sprintf("(%s_order_ : List Bytes)", leanVar(o)))
 	}
+	for _, c := range s.caps {
+		t, _ := s.paramType(c)
+		out = append(out, fmt.Sprintf("(%s_spare_ : %s)", c, t.lean()))
+	}
+	seen := map[string]bool{}
+	for _, m := range s.models {
+		for _, prm := range modelCalleeTable[m].params {
+			if !seen[prm[0]] {
+				seen[prm[0]] = true
+				out = append(out, fmt.Sprintf("(%s : %s)", prm[0], prm[1]))
+			}
+		}
+	}
 	for _, e := range s.envs {
 		er := envReadTable[e]
 		out = append(out, fmt.Sprintf("(%s : %s)", er.param, gty{k: er.k}.lean()))
@@ -488,6 +545,13 @@ func (g *trGen) goType(e ast.Expr) (gty, bool) {
 				}
 				if _, ok := structTable[id.Name]; ok {
 					return gty{k: kStructs, name: id.Name}, true
+				}
+			}
+			if st, ok := v.Elt.(*ast.StarExpr); ok {
+				if id, ok := st.X.(*ast.Ident); ok {
+					if _, ok := structTable[id.Name]; ok {
+						return gty{k: kPtrs, name: id.Name}, true
+					}
 				}
 			}
 		}
@@ -782,6 +846,19 @@ func (g *trGen) signature(name, recv string, sfx *suffixTarget) *trSig {
 			}
 		}
 	}
+	// slice parameters whose capacity is read: `cap(p)`
+	ast.Inspect(s.body, func(x ast.Node) bool {
+		if c, ok := x.(*ast.CallExpr); ok {
+			if id, ok := c.Fun.(*ast.Ident); ok && id.Name == "cap" && len(c.Args) == 1 {
+				if a, ok := c.Args[0].(*ast.Ident); ok {
+					if t, ok := s.paramType(leanVar(a.Name)); ok && (t.k == kStrs || t.k == kStr || t.k == kStructs || t.k == kPtrs) && !s.isCap(leanVar(a.Name)) {
+						s.caps = append(s.caps, leanVar(a.Name))
+					}
+				}
+			}
+		}
+		return true
+	})
 	// environment reads
 	ast.Inspect(s.body, func(x ast.Node) bool {
 		if c, ok := x.(*ast.CallExpr); ok {
@@ -842,6 +919,9 @@ func lvalueRoot(e ast.Expr) *ast.Ident {
 			e = r.X
 			continue
 		case *ast.ParenExpr:
+			e = r.X
+			continue
+		case *ast.SliceExpr:
 			e = r.X
 			continue
 		case *ast.Ident:
@@ -940,19 +1020,22 @@ type loopCtx struct {
 }
 
 type ftr struct {
-	g        *trGen
-	sig      *trSig
-	scopes   []map[string]gty
-	order    []string // declaration order of every local (for deterministic argument lists)
-	named    []string // named results
-	helpers  []string
-	nloops   int
-	alias    map[string]string // Go variable name -> Lean name, for names that are re-declared in a later sibling scope
-	ndecl    map[string]int
-	ntmp     int
-	loop     *loopCtx
-	deps     map[string]bool
-	inClosed bool
+	g          *trGen
+	sig        *trSig
+	scopes     []map[string]gty
+	order      []string // declaration order of every local (for deterministic argument lists)
+	named      []string // named results
+	helpers    []string
+	nloops     int
+	alias      map[string]string // Go variable name -> Lean name, for names that are re-declared in a later sibling scope
+	ndecl      map[string]int
+	ntmp       int
+	loop       *loopCtx
+	deps       map[string]bool
+	inClosed   bool
+	capAlias   map[string]string // local variable -> the capacity-tracked parameter it was resliced from (shares its array)
+	capDirty   map[string]bool   // capacity-tracked parameters whose array has been written through an alias
+	sliceNilOK bool              // the expression being translated is the whole condition of an else-less `if`
 }
 
 func (f *ftr) fail(n ast.Node, format string, a ...interface{}) {
@@ -1305,6 +1388,9 @@ func (f *ftr) expr(e ast.Expr) xr {
 			return xr{"none", gty{k: kNil}, false}
 		}
 		if t, ok := f.lookup(v.Name); ok {
+			if f.capDirty[v.Name] {
+				f.fail(v, "parameter %s is read after its backing array was written through a reslice of it (aliasing)", v.Name)
+			}
 			return xr{f.lv(v.Name), t, false}
 		}
 		if c, t, ok := f.pkgConst(v); ok {
@@ -1370,6 +1456,8 @@ func (f *ftr) expr(e ast.Expr) xr {
 			return xr{"(← atL " + x.code + " " + i.code + ")", gty{k: kStr}, true}
 		case kStructs:
 			return xr{"(← atA " + x.code + " " + i.code + ")", gty{k: kStruct, name: x.t.name}, true}
+		case kPtrs:
+			return xr{"(← atA " + x.code + " " + i.code + ")", gty{k: kPtr, name: x.t.name}, true}
 		}
 		f.fail(v, "index expression on %s", x.t.lean())
 	case *ast.SliceExpr:
@@ -1383,6 +1471,10 @@ func (f *ftr) expr(e ast.Expr) xr {
 		}
 		if v.High != nil {
 			hi = f.intExpr(v.High).code
+		}
+		if id, ok := v.X.(*ast.Ident); ok && f.sig.isCap(leanVar(id.Name)) && f.isParam(id.Name) {
+			// a reslice of a capacity-tracked parameter may extend into its spare capacity
+			return xr{"(← sliceCapA " + x.code + " " + x.code + "_spare_ " + lo + " " + hi + ")", x.t, true}
 		}
 		switch x.t.k {
 		case kStr:
@@ -1445,7 +1537,7 @@ func (f *ftr) zero(n ast.Node, t gty) string {
 		return "0"
 	case kBool:
 		return "false"
-	case kStr, kStrs, kStructs:
+	case kStr, kStrs, kStructs, kPtrs:
 		return "[]"
 	case kPtr, kMap, kErr, kMapMap:
 		return "none"
@@ -1494,12 +1586,20 @@ func (f *ftr) compositeLit(v *ast.CompositeLit) xr {
 			return xr{"([] : Bytes)", t, false}
 		}
 		return xr{"([" + strings.Join(parts, ", ") + "] : Bytes)", t, false}
-	case kStrs, kStructs: // []string{…} / []S{…}
+	case kMap: // Tags{} / map[string]string{}: a fresh empty map (entries are outside the subset)
+		if len(v.Elts) != 0 {
+			f.fail(v, "map literal with entries")
+		}
+		return xr{"(some ([] : Tags))", t, false}
+	case kStrs, kStructs, kPtrs: // []string{…} / []S{…} / []*S{…}
 		var parts []string
 		eff := false
 		want := gty{k: kStr}
 		if t.k == kStructs {
 			want = gty{k: kStruct, name: t.name}
+		}
+		if t.k == kPtrs {
+			want = gty{k: kPtr, name: t.name}
 		}
 		for _, el := range v.Elts {
 			if _, isKV := el.(*ast.KeyValueExpr); isKV {
@@ -1575,6 +1675,15 @@ func (f *ftr) binary(v *ast.BinaryExpr) xr {
 			x := a
 			if a.t.k == kNil {
 				x = b
+			}
+			if x.t.k == kStr || x.t.k == kStrs || x.t.k == kStructs || x.t.k == kPtrs {
+				// nil-ness of slices is not modelled (nil = empty, §2.1): `sliceIsNil` identifies the empty slice with nil.
+				// Admitted only as the whole condition `x != nil` of an `if` without `else` (the copy-if-present idiom);
+				// TRUST: the guarded block has the same value-level effect on an empty non-nil slice as being skipped.
+				if !f.sliceNilOK || v.Op != token.NEQ {
+					f.fail(v, "nil comparison on a slice outside `if x != nil { … }` (nil-ness of slices is not modelled)")
+				}
+				return xr{"(!(sliceIsNil " + x.code + "))", gty{k: kBool}, x.eff}
 			}
 			if x.t.k != kPtr && x.t.k != kMap && x.t.k != kErr && x.t.k != kMapMap {
 				f.fail(v, "nil comparison on %s", x.t.lean())
@@ -1706,6 +1815,35 @@ func (f *ftr) call(v *ast.CallExpr) xr {
 			}
 		}
 	}
+	// time.Since(t) = time.Now().Sub(t): the clock is the environment read `time.Now()` (read once, not inside a loop)
+	if exprString(v.Fun) == "time.Since" && len(v.Args) == 1 {
+		if f.loop != nil {
+			f.fail(v, "time.Since inside a loop")
+		}
+		for _, e := range f.sig.envs {
+			if e == "time.Now()" {
+				f.fail(v, "the clock is read more than once")
+			}
+		}
+		x := f.expr(v.Args[0])
+		if x.t.k != kInt {
+			f.fail(v, "time.Since of %s", x.t.lean())
+		}
+		f.sig.envs = append(f.sig.envs, "time.Now()")
+		return xr{"(timeSince " + envReadTable["time.Now()"].param + " " + x.code + ")", gty{k: kInt}, x.eff}
+	}
+	// int(d.Seconds()) for a time.Duration d: whole seconds, truncated towards zero (the float64 in between is not modelled)
+	if id, ok := v.Fun.(*ast.Ident); ok && id.Name == "int" && len(v.Args) == 1 {
+		if c, ok := v.Args[0].(*ast.CallExpr); ok && len(c.Args) == 0 {
+			if sel, ok := c.Fun.(*ast.SelectorExpr); ok && sel.Sel.Name == "Seconds" {
+				x := f.expr(sel.X)
+				if x.t.k != kInt {
+					f.fail(v, "Seconds() of %s", x.t.lean())
+				}
+				return xr{"(durWholeSeconds " + x.code + ")", gty{k: kInt}, x.eff}
+			}
+		}
+	}
 	// conversions
 	if t, ok := f.g.goType(v.Fun); ok && len(v.Args) == 1 {
 		x := f.expr(v.Args[0])
@@ -1726,18 +1864,36 @@ func (f *ftr) call(v *ast.CallExpr) xr {
 	case "len":
 		x := f.expr(v.Args[0])
 		switch x.t.k {
-		case kStr, kStrs, kStructs:
+		case kStr, kStrs, kStructs, kPtrs:
 			return xr{"(len " + x.code + ")", gty{k: kInt}, x.eff}
 		case kMap:
 			return xr{"(mapLen " + x.code + ")", gty{k: kInt}, x.eff}
 		}
 		f.fail(v, "len of %s", x.t.lean())
+	case "cap":
+		if id, ok := v.Args[0].(*ast.Ident); ok && len(v.Args) == 1 && f.sig.isCap(leanVar(id.Name)) && f.isParam(id.Name) {
+			x := f.expr(v.Args[0])
+			return xr{"((len " + x.code + ") + (len " + x.code + "_spare_))", gty{k: kInt}, false}
+		}
+		f.fail(v, "cap of anything but a slice parameter (capacity is modelled for parameters only, §2.16)")
 	case "make":
 		if t, ok := f.g.goType(v.Args[0]); ok && t.k == kMap && len(v.Args) == 1 {
 			return xr{"(some ([] : Tags))", t, false}
 		}
 		if t, ok := f.g.goType(v.Args[0]); ok && t.k == kMapMap && len(v.Args) == 1 {
 			return xr{"(some ([] : AMap (Option Tags)))", t, false}
+		}
+		if t, ok := f.g.goType(v.Args[0]); ok && (t.k == kStructs || t.k == kStrs || t.k == kStr) && len(v.Args) == 3 {
+			// make([]T, n, c): the capacity is not modelled, its run-time check (0 ≤ n ≤ c) is
+			n, c := f.intExpr(v.Args[1]), f.intExpr(v.Args[2])
+			elt := gty{k: kStr}
+			switch t.k {
+			case kStructs:
+				elt = gty{k: kStruct, name: t.name}
+			case kStr:
+				elt = gty{k: kByte}
+			}
+			return xr{"(← makeCapA " + f.zero(v, elt) + " " + n.code + " " + c.code + ")", t, true}
 		}
 		if t, ok := f.g.goType(v.Args[0]); ok && (t.k == kStructs || t.k == kStrs || t.k == kStr) && len(v.Args) == 2 {
 			n := f.intExpr(v.Args[1])
@@ -1761,14 +1917,29 @@ func (f *ftr) call(v *ast.CallExpr) xr {
 		}
 		return xr{"(some " + f.zero(v, t) + ")", gty{k: kPtr, name: t.name}, false}
 	case "append":
+		// append into a reslice of a capacity-tracked parameter (or an alias of one) would write into the shared array
+		{
+			a0 := v.Args[0]
+			if se, ok := a0.(*ast.SliceExpr); ok {
+				a0 = se.X
+			}
+			if id, ok := a0.(*ast.Ident); ok {
+				_, isAlias := f.capAlias[id.Name]
+				if isAlias || (f.sig.isCap(leanVar(id.Name)) && f.isParam(id.Name)) {
+					f.fail(v, "append to (a reslice of) the capacity-tracked parameter %s: it may write into the shared array", id.Name)
+				}
+			}
+		}
 		x := f.expr(v.Args[0])
 		if len(v.Args) != 2 {
 			f.fail(v, "append with %d arguments", len(v.Args))
 		}
 		y := f.expr(v.Args[1])
 		switch {
-		case v.Ellipsis.IsValid() && x.t.k == y.t.k && x.t.name == y.t.name && (x.t.k == kStr || x.t.k == kStrs || x.t.k == kStructs):
+		case v.Ellipsis.IsValid() && x.t.k == y.t.k && x.t.name == y.t.name && (x.t.k == kStr || x.t.k == kStrs || x.t.k == kStructs || x.t.k == kPtrs):
 			return xr{"(" + x.code + " ++ " + y.code + ")", x.t, x.eff || y.eff}
+		case !v.Ellipsis.IsValid() && x.t.k == kPtrs && y.t.k == kPtr && x.t.name == y.t.name:
+			return xr{"(" + x.code + " ++ [" + y.code + "])", x.t, x.eff || y.eff}
 		case !v.Ellipsis.IsValid() && x.t.k == kStructs && y.t.k == kStruct && x.t.name == y.t.name:
 			return xr{"(" + x.code + " ++ [" + y.code + "])", x.t, x.eff || y.eff}
 		case !v.Ellipsis.IsValid() && x.t.k == kStrs && y.t.k == kStr:
@@ -1938,6 +2109,56 @@ func (f *ftr) call(v *ast.CallExpr) xr {
 			}
 		}
 	}
+	// a package-local function that is mapped to a designated model function
+	if mc, ok := modelCalleeTable[name]; ok && f.g.sigs[name] == nil {
+		fd := f.g.findFunc(name, "")
+		okSig := fd != nil && fd.Type.Results != nil && len(fd.Type.Results.List) == 1 && len(fd.Type.Results.List[0].Names) <= 1
+		var ptypes []gty
+		if okSig {
+			for _, fl := range fd.Type.Params.List {
+				t, ok := f.g.goType(fl.Type)
+				if !ok {
+					okSig = false
+					break
+				}
+				for range fl.Names {
+					ptypes = append(ptypes, t)
+				}
+			}
+		}
+		if okSig {
+			rt, ok := f.g.goType(fd.Type.Results.List[0].Type)
+			okSig = ok && rt.k == mc.ret && len(ptypes) == len(mc.args)
+			for i := 0; okSig && i < len(ptypes); i++ {
+				okSig = ptypes[i].k == mc.args[i]
+			}
+		}
+		if !okSig {
+			f.fail(v, "model callee %s: the Go function no longer has the signature of its table entry", name)
+		}
+		if len(v.Args) != len(mc.args) {
+			f.fail(v, "model callee %s: %d arguments", name, len(v.Args))
+		}
+		code, eff := mc.tmpl, mc.eff
+		for i, a := range v.Args {
+			x := f.expr(a)
+			f.assignable(a, gty{k: mc.args[i]}, x.t)
+			code = strings.ReplaceAll(code, "$"+strconv.Itoa(i+1), parenArg(x.code))
+			eff = eff || x.eff
+		}
+		have := false
+		for _, m := range f.sig.models {
+			have = have || m == name
+		}
+		if !have {
+			f.sig.models = append(f.sig.models, name)
+		}
+		f.g.imports[mc.imp] = true
+		if mc.eff {
+			return xr{"(← " + code + ")", gty{k: mc.ret}, true}
+		}
+		return xr{"(" + code + ")", gty{k: mc.ret}, eff}
+	}
 	// another translated function
 	if x, ok := f.callTarget(v, false); ok {
 		return x
@@ -2023,6 +2244,12 @@ func (f *ftr) callTarget(v *ast.CallExpr, allowMulti bool) (xr, bool) {
 	}
 	if len(sig.envs) > 0 {
 		f.fail(v, "call of %s, which reads the environment (its parameters are not threaded through callers)", sig.name)
+	}
+	if len(sig.caps) > 0 {
+		f.fail(v, "call of %s, which reads the capacity of a slice parameter (its spare-capacity parameter is not threaded through callers)", sig.name)
+	}
+	if len(sig.models) > 0 {
+		f.fail(v, "call of %s, which calls a model callee (its parameters are not threaded through callers)", sig.name)
 	}
 	if len(sig.mapout) > 0 {
 		f.fail(v, "call of %s, which assigns entries of its map argument", sig.name)
@@ -2352,6 +2579,7 @@ func (f *ftr) assign(v *ast.AssignStmt, ind int, em *emitter) {
 				t := f.defType(l, xs[i].t)
 				f.declare(id, id.Name, t)
 				em.add(ind, fmt.Sprintf("let mut %s : %s := %s", f.lv(id.Name), t.lean(), xs[i].code))
+				f.noteCapAlias(id.Name, v.Rhs[i])
 			}
 			return
 		}
@@ -2429,6 +2657,54 @@ func (f *ftr) assign(v *ast.AssignStmt, ind int, em *emitter) {
 		}
 		f.fail(v, "multi-value define from one call")
 	case token.ASSIGN:
+		if len(v.Lhs) == 2 && len(v.Rhs) == 1 {
+			// `v, ok = m[k]` on a map (either side may be blank)
+			if ix, ok := v.Rhs[0].(*ast.IndexExpr); ok {
+				if mt := f.tryExprType(ix.X); mt != nil && mt.k == kMap {
+					m, k := f.expr(ix.X), f.expr(ix.Index)
+					f.assignable(v, gty{k: kStr}, k.t)
+					vals := [2]xr{{"(mapGet " + m.code + " " + k.code + ")", gty{k: kStr}, m.eff || k.eff},
+						{"(mapHas " + m.code + " " + k.code + ")", gty{k: kBool}, m.eff || k.eff}}
+					for i, l := range v.Lhs {
+						if id, ok := l.(*ast.Ident); ok && id.Name == "_" {
+							continue
+						}
+						f.assignTo(l, vals[i], v, ind, em)
+					}
+					return
+				}
+			}
+		}
+		if call, ok := v.Rhs[0].(*ast.CallExpr); ok && len(v.Rhs) == 1 && len(v.Lhs) > 1 {
+			// `a, b = F(…)` for a translated function with several results: the results are bound first, then assigned
+			// left to right (the targets must be plain variables)
+			if x, ok := f.callTarget(call, true); ok {
+				sig := f.calleeSig(call)
+				if len(sig.ptrout) > 0 || sig.sinks || len(sig.inout) > 0 || len(sig.rets) != len(v.Lhs) {
+					f.fail(v, "multi-value assignment from %s", sig.name)
+				}
+				f.ntmp++
+				var pats []string
+				for i, l := range v.Lhs {
+					id, ok := l.(*ast.Ident)
+					if !ok {
+						f.fail(l, "multi-value assignment to a non-variable")
+					}
+					if id.Name == "_" {
+						pats = append(pats, "_")
+					} else {
+						pats = append(pats, fmt.Sprintf("ma%d_%d_", f.ntmp, i+1))
+					}
+				}
+				em.add(ind, "let ("+strings.Join(pats, ", ")+") := "+x.code)
+				for i, l := range v.Lhs {
+					if id := l.(*ast.Ident); id.Name != "_" {
+						f.setVar(v, id.Name, xr{pats[i], sig.rets[i], false}, ind, em)
+					}
+				}
+				return
+			}
+		}
 		if len(v.Lhs) != len(v.Rhs) {
 			f.fail(v, "multi-value assignment from one call")
 		}
@@ -2436,6 +2712,9 @@ func (f *ftr) assign(v *ast.AssignStmt, ind int, em *emitter) {
 			f.fail(v, "parallel assignment")
 		}
 		f.assignTo(v.Lhs[0], f.expr(v.Rhs[0]), v, ind, em)
+		if id, ok := v.Lhs[0].(*ast.Ident); ok {
+			f.noteCapAlias(id.Name, v.Rhs[0])
+		}
 		return
 	case token.ADD_ASSIGN, token.SUB_ASSIGN:
 		op := token.ADD
@@ -2477,6 +2756,12 @@ func (f *ftr) assignTo(lhs ast.Expr, val xr, n ast.Node, ind int, em *emitter) {
 		}
 		if t.k == kStrs || t.k == kStructs || t.k == kMapMap {
 			f.assignPath(lhs, val, n, ind, em)
+			if p, ok := f.capAlias[id.Name]; ok {
+				if f.loop != nil {
+					f.fail(n, "write through a reslice of parameter %s inside a loop", p)
+				}
+				f.capDirty[p] = true
+			}
 			return
 		}
 		if t.k != kStr {
@@ -2568,6 +2853,24 @@ func (f *ftr) assignPath(lhs ast.Expr, val xr, n ast.Node, ind int, em *emitter)
 			f.fail(n, "element assignment on %s", c.t.lean())
 		}
 		f.assignPath(l.X, xr{code, c.t, true}, n, ind, em)
+	case *ast.SliceExpr:
+		// copy(x[lo:], src): the tail of x from lo is replaced by the (equally long) new tail
+		if l.High != nil || l.Slice3 {
+			f.fail(n, "copy into a slice expression with an upper bound")
+		}
+		c := f.expr(l.X)
+		if c.t.k != val.t.k || c.t.name != val.t.name {
+			f.fail(n, "copy into a slice expression of another type")
+		}
+		fn := map[kind]string{kStr: "sliceI", kStrs: "sliceL", kStructs: "sliceA", kPtrs: "sliceA"}[c.t.k]
+		if fn == "" {
+			f.fail(n, "copy into a slice expression of %s", c.t.lean())
+		}
+		lo := "0"
+		if l.Low != nil {
+			lo = f.intExpr(l.Low).code
+		}
+		f.assignPath(l.X, xr{fmt.Sprintf("((← %s %s 0 %s) ++ %s)", fn, c.code, lo, val.code), c.t, true}, n, ind, em)
 	case *ast.SelectorExpr:
 		c := f.expr(l.X)
 		if c.t.k != kPtr && c.t.k != kStruct {
@@ -2590,6 +2893,33 @@ func (f *ftr) assignPath(lhs ast.Expr, val xr, n ast.Node, ind int, em *emitter)
 		f.assignPath(l.X, xr{code, c.t, true}, n, ind, em)
 	default:
 		f.fail(n, "assignment target %T", lhs)
+	}
+}
+
+// noteCapAlias records that the local `name` shares the backing array of a capacity-tracked parameter when it is bound
+// to a reslice of that parameter or of another such alias (§2.16).
+func (f *ftr) noteCapAlias(name string, rhs ast.Expr) {
+	for {
+		if pe, ok := rhs.(*ast.ParenExpr); ok {
+			rhs = pe.X
+			continue
+		}
+		break
+	}
+	var root *ast.Ident
+	switch r := rhs.(type) {
+	case *ast.SliceExpr:
+		root, _ = r.X.(*ast.Ident)
+	case *ast.Ident:
+		root = r
+	}
+	if root == nil {
+		return
+	}
+	if f.sig.isCap(leanVar(root.Name)) && f.isParam(root.Name) {
+		f.capAlias[name] = root.Name
+	} else if p, ok := f.capAlias[root.Name]; ok {
+		f.capAlias[name] = p
 	}
 }
 
@@ -2628,6 +2958,24 @@ func (f *ftr) exprStmt(v *ast.ExprStmt, ind int, em *emitter) {
 		em.add(ind, fmt.Sprintf("%s := (%s %s)", f.lv(id.Name), pr.fn, f.lv(id.Name)))
 		return
 	}
+	if calleeName(call.Fun) == "delete" && len(call.Args) == 2 {
+		// delete(m, k) on a map variable (a no-op on a nil map / missing key)
+		id, ok := call.Args[0].(*ast.Ident)
+		if !ok {
+			f.fail(v, "delete on a non-variable")
+		}
+		t, _ := f.lookup(id.Name)
+		if t.k != kMap {
+			f.fail(v, "delete on %s", t.lean())
+		}
+		k := f.expr(call.Args[1])
+		f.assignable(v, gty{k: kStr}, k.t)
+		if f.sig.rebound[f.lv(id.Name)] && f.isParam(id.Name) {
+			f.fail(v, "delete on the re-bound map parameter %s", id.Name)
+		}
+		em.add(ind, fmt.Sprintf("%s := (mapDelete %s %s)", f.lv(id.Name), f.lv(id.Name), k.code))
+		return
+	}
 	if calleeName(call.Fun) == "copy" && len(call.Args) == 2 {
 		// copy(dst, src), count discarded; dst is an lvalue path (value semantics: dst and src do not overlap)
 		d, sx := f.expr(call.Args[0]), f.expr(call.Args[1])
@@ -2638,6 +2986,14 @@ func (f *ftr) exprStmt(v *ast.ExprStmt, ind int, em *emitter) {
 			f.fail(v, "copy into a parameter slice (it would alias the caller's slice)")
 		}
 		f.assignPath(call.Args[0], xr{"(copyA " + d.code + " " + sx.code + ")", d.t, d.eff || sx.eff}, v, ind, em)
+		if r := lvalueRoot(call.Args[0]); r != nil {
+			if p, ok := f.capAlias[r.Name]; ok {
+				if f.loop != nil {
+					f.fail(v, "write through a reslice of parameter %s inside a loop", p)
+				}
+				f.capDirty[p] = true // the parameter's array has been overwritten: later reads of it are rejected
+			}
+		}
 		return
 	}
 	if ctor, ok := sinkTable[exprString(call.Fun)]; ok {
@@ -2822,14 +3178,32 @@ func (f *ftr) ifStmt(v *ast.IfStmt, ind int, em *emitter) bool {
 		defer f.pop()
 		f.stmt(v.Init, ind, em)
 	}
-	em.add(ind, "if "+f.cond(v.Cond)+" then")
+	if be, ok := v.Cond.(*ast.BinaryExpr); ok && v.Else == nil && be.Op == token.NEQ {
+		if id, ok := be.Y.(*ast.Ident); ok && id.Name == "nil" {
+			f.sliceNilOK = true
+		}
+	}
+	cnd := f.cond(v.Cond)
+	f.sliceNilOK = false
+	em.add(ind, "if "+cnd+" then")
 	f.push()
 	n0 := len(em.lines)
+	dirty0, alias0 := map[string]bool{}, map[string]string{}
+	for k, b := range f.capDirty {
+		dirty0[k] = b
+	}
+	for k, a := range f.capAlias {
+		alias0[k] = a
+	}
 	t1 := f.block(v.Body.List, ind+1, em)
 	if len(em.lines) == n0 {
 		em.add(ind+1, "pure ()")
 	}
 	f.pop()
+	f.capAlias = alias0 // variables declared in the branch are out of scope
+	if t1 {
+		f.capDirty = dirty0 // the branch does not fall through: what it overwrote is not visible after the `if`
+	}
 	t2 := false
 	if v.Else != nil {
 		em.add(ind, "else")
@@ -3175,6 +3549,11 @@ func assignedIn(n ast.Node, assigned, declared map[string]bool, bufs func(string
 					assigned[id.Name] = true
 				}
 			}
+			if calleeName(v.Fun) == "delete" && len(v.Args) == 2 {
+				if id, ok := v.Args[0].(*ast.Ident); ok {
+					assigned[id.Name] = true
+				}
+			}
 			if _, ok := sinkTable[exprString(v.Fun)]; ok {
 				assigned["outs_"] = true
 			}
@@ -3438,7 +3817,11 @@ func (f *ftr) rangeStmt(v *ast.RangeStmt, ind int, em *emitter) {
 			f.fail(v, "the ranged-over map %s is assigned in the loop body", name)
 		}
 	}
-	if (keyName != "" && assigned[keyName]) || (valName != "" && assigned[valName]) {
+	valMut := false
+	if sliceMode && valName != "" && assigned[valName] {
+		// the element variable of a slice range is an ordinary per-iteration variable: it may be assigned in the body
+		valMut = true
+	} else if (keyName != "" && assigned[keyName]) || (valName != "" && assigned[valName]) {
 		f.fail(v, "range variable assigned in the loop body")
 	}
 	var carried, outer, imm []string
@@ -3494,7 +3877,12 @@ func (f *ftr) rangeStmt(v *ast.RangeStmt, ind int, em *emitter) {
 	if sliceMode && valName != "" {
 		keyLean = f.lv(valName)
 	}
-	h.add(2, "| "+keyLean+" :: keys_ =>")
+	if valMut {
+		h.add(2, "| "+keyLean+"_it_ :: keys_ =>")
+		h.add(3, "let mut "+keyLean+" : Bytes := "+keyLean+"_it_")
+	} else {
+		h.add(2, "| "+keyLean+" :: keys_ =>")
+	}
 	if valName != "" && !sliceMode {
 		switch {
 		case pkgInfo == nil:
@@ -3644,7 +4032,8 @@ func prefixEach(p string, xs []string) string {
 // ---- one function -----------------------------------------------------------------------------
 
 func (g *trGen) translateFunc(sig *trSig) (text string, deps []string, why string) {
-	f := &ftr{g: g, sig: sig, deps: map[string]bool{}, alias: map[string]string{}, ndecl: map[string]int{}}
+	f := &ftr{g: g, sig: sig, deps: map[string]bool{}, alias: map[string]string{}, ndecl: map[string]int{},
+		capAlias: map[string]string{}, capDirty: map[string]bool{}}
 	defer func() {
 		if r := recover(); r != nil {
 			u, ok := r.(unsupported)
@@ -3657,6 +4046,7 @@ func (g *trGen) translateFunc(sig *trSig) (text string, deps []string, why strin
 	fd := sig.fd
 	f.push()
 	sig.envs = nil
+	sig.models = nil
 	var sigParts []string
 	for _, p := range sig.params {
 		f.scopes[0][goName(p.name)] = p.t
@@ -3811,7 +4201,7 @@ func (g *trGen) ensure(n string) string {
 // translateAll writes Funcs.lean next to Facts.lean.
 func translateAll(p *pkgFiles, repo, outPath string) {
 	g := &trGen{p: p, repo: repo, consts: map[string]string{}, sigs: map[string]*trSig{}, defs: map[string]string{},
-		deps: map[string][]string{}, status: map[string]string{}, busy: map[string]bool{}}
+		deps: map[string][]string{}, status: map[string]string{}, busy: map[string]bool{}, imports: map[string]bool{}}
 	var names []string
 	for _, t := range trTargets {
 		s := g.signature(t[0], t[1], nil)
@@ -3848,6 +4238,14 @@ func translateAll(p *pkgFiles, repo, outPath string) {
 
 	var b strings.Builder
 	b.WriteString("import Girc.Base.GoSem\n")
+	var imps []string
+	for m := range g.imports {
+		imps = append(imps, m)
+	}
+	sort.Strings(imps)
+	for _, m := range imps {
+		b.WriteString("import " + m + "\n")
+	}
 	b.WriteString("/- GENERATED by tools/extract (translate.go) from the Go sources — do not edit.\n")
 	b.WriteString("   Each definition is the syntax-directed translation of one Go function into the `Except Fault` monad\n")
 	b.WriteString("   over the run-time of Girc/Base/GoSem.lean.  Equivalence with the hand-written models is proved in\n")
